@@ -113,7 +113,10 @@ def leftovers(sess):
         if getattr(x, "var", None) is not None and hasattr(x, "is_used_rand"):
             n_var += 1
         for k, v in vars(x).items():
-            if k in ("parent", "srcinfo", "val", "node", "var", "btor", "randstate"):
+            if k in ("parent", "srcinfo", "val", "node", "var", "btor", "randstate",
+                     # memo caches of dynamic expressions: they may still name element fields that have left the list
+                     # (no longer part of the object's model) and play no role in later calls
+                     "cached_expr", "cached_node", "sum_expr", "product_expr"):
                 continue
             if isinstance(v, (list, tuple, dict)) or (getattr(type(v), "__module__", "") or "").startswith("vsc.model"):
                 stack.append(v)
